@@ -142,6 +142,13 @@ def run(chk):
             dL = float(np.linalg.norm(np.concatenate([np.asarray(yL) - my, np.asarray(zL) - mz])))
             d1 = float(np.linalg.norm(np.concatenate([yk - my, zk - mz])))
             chk.count(1, key=("converge", kind))
+            # twice as many iterations: while the mode has not been reached (to rounding level) the loop keeps moving towards it - the
+            # requested number of iterations is performed (convergence is a theorem: FAEnrollConv.v)
+            m.enroll_iterations = 800
+            z800 = np.asarray(m.enroll(stats)[0] if kind == "isv" else m.enroll(stats)[1], dtype=float).ravel()
+            if dL > 1e-8 * (1 + float(np.linalg.norm(mz))) and np.array_equal(z800, np.asarray(zL, dtype=float).ravel()):
+                chk.fail("%s enrolment with 800 iterations returns exactly the factors of 400 iterations although they are %.3g away from the joint posterior mode (the requested iterations are not performed)"
+                         % (kind, dL), dict(ctx, iterations=[400, 800], distance_to_mode=dL))
             if not (dL <= 1e-6 * (1 + np.linalg.norm(mz)) or dL <= 0.5 * d1):
                 chk.fail("%s enrolment does not approach the joint posterior mode: distance %.3g after 400 iterations (%.3g after %d)" % (kind, dL, d1, K), ctx)
     bad, info = cq.run_cases("C07", fa.IMPORTS, "en_case", "en_check", terms, shard=100)
